@@ -72,6 +72,13 @@ class Built:
         for nd in self.desc["nodes"]:
             cls = schema.CLASSES[nd["cls"]]
             self.objs.append(cls(**{k: self.val(v) for k, v in nd["kw"]}))
+        # the caller may hold the list handed out by the pre_tasks property from before any sealing
+        self.heldpre = {}
+        for i, o in enumerate(self.objs):
+            try:
+                self.heldpre[i] = o.pre_tasks
+            except Exception:  # noqa
+                pass
         for ai, a in enumerate(self.desc.get("actions", [])):
             try:
                 self.action(a)
@@ -104,7 +111,9 @@ class Built:
 
     # -- reflection: the heap as the real objects hold it
     def export(self):
-        objs = list(self.objs)
+        # objects discovered by an earlier export keep their indices (a later export may discover more, e.g. the
+        # configurations generated when another node gets sealed)
+        objs = list(getattr(self, "allobjs", None) or self.objs)
         index = {id(o): i for i, o in enumerate(objs)}
         classes, cindex = [], {}
 
@@ -233,6 +242,13 @@ class Built:
                 elif k == "preappend":
                     # the other way to the pre-task list: the list handed out by the pre_tasks property
                     o.pre_tasks.append(*[self.allobjs[i] for i in op["ids"]])
+                    out.append("ok")
+                elif k == "preheldappend":
+                    # the list obtained from o.pre_tasks BEFORE the configuration was sealed, used afterwards
+                    lst = self.heldpre.get(op["n"])
+                    if not isinstance(lst, list):
+                        raise AttributeError("no list held")
+                    lst.extend(self.allobjs[i] for i in op["ids"])
                     out.append("ok")
                 elif k == "initappend":
                     # the caller appends to the list object it gave as init_tasks at submission: its own list, so
